@@ -44,6 +44,7 @@ type state struct {
 	recvErr   []error      // terminal error per receiver
 	closeOK   bool         // half-close returned nil
 	disturbed bool         // a closer/canceller ran
+	raw       bool         // receivers use RawRecv
 }
 
 type spec struct {
@@ -53,12 +54,16 @@ type spec struct {
 	toggle    bool   // the sender corks its first message with SetManualFlush(true) and un-corks before the next
 	halfClose bool   // sender side half-closes after its sends
 	disturb   string // "", "close", "cancel": concurrent closer/canceller on the sending endpoint's peer... see body
+	raw       bool   // receivers use RawRecv (the caller owns the returned bytes)
 }
 
 func (s spec) String() string {
 	t := ""
 	if s.toggle {
 		t = " toggle-manual-flush"
+	}
+	if s.raw {
+		t += " raw-receive"
 	}
 	return fmt.Sprintf("%s senders=%v recv=%d hc=%v disturb=%q%s", s.dir, s.senders, s.receivers, s.halfClose, s.disturb, t)
 }
@@ -126,9 +131,17 @@ func onWire(log [][]byte, want []byte) bool {
 }
 
 func recvAll(st *state, stream drpc.Stream, g int) {
+	rr, raw := stream.(interface{ RawRecv() ([]byte, error) })
 	for k := 0; k < 16; k++ {
 		var in []byte
-		if err := stream.MsgRecv(&in, enc.Bytes{}); err != nil {
+		if st.raw && raw {
+			b, err := rr.RawRecv()
+			if err != nil {
+				st.recvErr[g] = err
+				return
+			}
+			in = b
+		} else if err := stream.MsgRecv(&in, enc.Bytes{}); err != nil {
 			st.recvErr[g] = err
 			return
 		}
@@ -139,7 +152,7 @@ func recvAll(st *state, stream drpc.Stream, g int) {
 func scenario(cfg wl.Config, sp spec) *mc.Scenario {
 	name := fmt.Sprintf("deliver[%s | %s]", cfg, sp)
 	body := func() {
-		st := &state{sends: make([][]*sendRec, len(sp.senders)), recvs: make([][][]byte, sp.receivers), recvErr: make([]error, sp.receivers)}
+		st := &state{sends: make([][]*sendRec, len(sp.senders)), recvs: make([][][]byte, sp.receivers), recvErr: make([]error, sp.receivers), raw: sp.raw}
 		var env *wl.Env
 		runSenders := func(stream drpc.Stream, wire *tr.End) {
 			if len(sp.senders) == 1 {
@@ -226,7 +239,9 @@ func scenario(cfg wl.Config, sp spec) *mc.Scenario {
 		env := wl.GetEnv(e)
 		return verify(env, sp)
 	}
-	return &mc.Scenario{Name: name, Body: body, Check: check, Model: sched.Deviation, NoCache: true}
+	// raw receives own their bytes after the call: let other goroutines run right after every lock
+	// release, where a use of the connection's buffer after handing it back would happen
+	return &mc.Scenario{Name: name, Body: body, Check: check, Model: sched.Deviation, NoCache: true, AfterRelease: sp.raw}
 }
 
 func snapshot(st *state) string {
@@ -412,6 +427,12 @@ func basePlans(tier string) []mc.Plan {
 			for _, dir := range []string{"c2s", "s2c"} {
 				add(cfg, spec{dir: dir, senders: [][]int{{1, 3}}, receivers: 1, halfClose: true, toggle: true}, 0, 1)
 				add(cfg, spec{dir: dir, senders: [][]int{{3, 1, 1}}, receivers: 1, halfClose: false, toggle: true}, 0, 1)
+			}
+		}
+		// RawRecv: the returned bytes belong to the caller, back-to-back messages
+		for _, cfg := range []wl.Config{base, small} {
+			for _, dir := range []string{"c2s", "s2c"} {
+				add(cfg, spec{dir: dir, senders: [][]int{{3, 3, 1}}, receivers: 1, halfClose: true, raw: true}, 0, 1)
 			}
 		}
 		// cold start: the first message races the managers' own start-up
